@@ -71,6 +71,11 @@ def oracle(c, r):
         if r[0] == "err" and r[1] == "CollisionError":
             return None
         return Failure(dict(sig, clause="collision-error"), f"overlap in 'error' mode did not raise CollisionError: {r[:2]}")
+    if r[0] == "err" and r[1] == "TextgridStateError" and t["k"] == "I" and c["shrink"] and any(
+            e[0] >= b and a + (e[0] - b) >= a + (e[1] - b) for e in t["es"]):
+        # as in C08: a whole entry a few ulps long behind the region whose two ends are shifted onto one float
+        # (layer R: the only refusal rounding can cause); a praatio error
+        return None
     if r[0] == "err":
         return Failure(dict(sig, clause="no-error", exc=r[1]), f"eraseRegion of a well-formed tier / in-span region raised {r[1]}")
     s = r[1]
